@@ -122,6 +122,12 @@ class ProgGen:
             self.features.add("genexp")
             v = "c" + str(r.randrange(3))
             inner = self.child_ints(sc, [v])
+            if r.random() < 0.5:
+                # a generator expression that is NOT the sole argument: it keeps its own parentheses
+                self.features.add("genexp-with-keywords")
+                return r.choice([f"max(({self.expr(inner, d - 1)} for {v} in range({r.randrange(0, 4)})), default={E()})",
+                                 f"sorted(({self.expr(inner, d - 1)} for {v} in range({r.randrange(1, 4)})), key=abs)[0]",
+                                 f"sum(({self.expr(inner, d - 1)} for {v} in range({r.randrange(0, 4)})), {E()})"])
             return f"sum({self.expr(inner, d - 1)} for {v} in range({r.randrange(0, 4)}))"
         return f"int({self.cond(sc, d - 1)})"
 
